@@ -52,9 +52,13 @@ Inductive ev :=
 | ESwapSlot (s : slot) (v : var)      (* Py_XSETREF(self->slot, v) *)
 | EClearSlot (s : slot)               (* Py_CLEAR(self->slot) *)
 | EAssumeSlot (s : slot) (full : bool)(* branch condition self->slot != NULL / == NULL *)
-| ECall (f : nat) (args : list var) (ret : option var)
-                                      (* call of another function of the skeleton; replaced by its
-                                         summary ([expand]) before anything else *)
+| ECall (f : nat) (args : list (option var)) (ret : option var)
+                                      (* call of another function of the skeleton: one entry per pointer
+                                         parameter of the callee (None = NULL or a constant the callee never
+                                         touches); replaced by its summary ([expand]) or by the callee's own
+                                         events ([inline], Proofs/OwnInline.v) before anything else *)
+| EMoveRef (r v : var)                (* r = v, and one reference we hold through v now belongs to r
+                                         (what "return v" is to the caller once the callee is inlined) *)
 | EReturn (r : option var).           (* return; a returned pointer carries our reference to the caller *)
 
 Definition path := list ev.
@@ -273,6 +277,14 @@ Definition step (strict : bool) (orc : oracle) (s : st) (k : nat) (e : ev) : out
       | _, _ => Infeasible
       end
   | ECall _ _ _ => Fault Unexpanded
+  | EMoveRef r v =>
+      match lookup (venv s) v with
+      | None => Fault (UseUnset v)
+      | Some o =>
+          if has (refs s) (HVar v, o)
+          then Running (mkSt ((HVar r, o) :: remove1 (HVar v, o) (refs s)) (freed s) (next s) ((r, o) :: venv s)) k
+          else Fault (OverRelease v)
+      end
   | EReturn r =>
       match r with
       | None => Done s
@@ -383,6 +395,10 @@ Definition dstep (strict : bool) (d : dst) (e : ev) : option dst :=
       Some (if full then mkD (d_stat d) (d_empty d) (s :: d_full d)
             else mkD (d_stat d) (s :: d_empty d) (d_full d))
   | ECall _ _ _ => None
+  | EMoveRef r v =>
+      if negb (is_owned (stat d r)) && negb (Nat.eqb r v) then
+        option_map (fun d1 => set_stat d1 r (SOwned 0)) (drop_one d v SStale)
+      else None
   | EReturn r =>
       match r with
       | None => Some d
@@ -424,10 +440,13 @@ Definition D (strict : bool) (params : list var) (p : path) : bool :=
    of the skeleton can call back into Python), the arguments are used again, and (on the success
    path) a new reference is returned.  That the callee itself keeps to the discipline, and in
    particular returns an owned reference, is checked on its own paths. *)
+Fixpoint somes {A} (l : list (option A)) : list A :=
+  match l with [] => [] | Some x :: l' => x :: somes l' | None :: l' => somes l' end.
+
 Definition expand_ev (e : ev) : list ev :=
   match e with
   | ECall _ args ret =>
-      map EUse args ++ [EMayCall] ++ map EUse args ++
+      map EUse (somes args) ++ [EMayCall] ++ map EUse (somes args) ++
       match ret with Some v => [ENewRef v] | None => [] end
   | _ => [e]
   end.
